@@ -118,15 +118,18 @@ Lemma rt_dump_first_leaks :
 Proof. vm_compute. repeat split; reflexivity. Qed.
 
 (* ---- what main_body does to each part of the state -------------------------------------- *)
-Definition path_after (o : Opts) (p : Prog) (c : cell) : cell :=
+Definition path_after (o : Opts) (p : Prog) (tr : option prof) (c : cell) : cell :=
   let c := if o_module o then insert0 (o_cwd o) c else c in
   let c := match o_setup o with Some d => insert0 d c | None => c end in
   let c := if o_module o then c else insert0 (o_script_dir o) c in
-  if p_touch_path p then append_cur "/prog-added" c else c.
+  if p_touch_path p && body_runs o p tr then append_cur "/prog-added" c else c.
 
-Definition argv_after (cfg : Fixes) (o : Opts) (p : Prog) (c : cell) : cell :=
+Definition argv_after (cfg : Fixes) (o : Opts) (p : Prog) (tr : option prof) (c : cell) : cell :=
   let c := assign_argv cfg (o_new_argv o) c in
-  if p_touch_argv p then append_cur "prog-added" c else c.
+  if p_touch_argv p && body_runs o p tr then append_cur "prog-added" c else c.
+
+Definition tracing_after (cfg : Fixes) (o : Opts) (p : Prog) (n : Z) (tr : option prof) : option prof :=
+  if registers o p && negb (fx_autoprof cfg) && negb (is_some tr) then Some (Ext n) else tr.
 
 Definition gp_after (cfg : Fixes) (g : GP) (n : Z) : GP :=
   let g1 := overwrite g (Some (Ext n)) in
@@ -142,12 +145,12 @@ Definition builtin_after (cfg : Fixes) (o : Opts) (b : option prof) (n : Z) : op
 
 Lemma main_body_eq cfg o p s :
   main_body cfg o p s
-  = (result_of (effective_outcome o p (builtin s)),
-     mkSt (argv_after cfg o p (argv s)) (path_after o p (path s)) (gp_after cfg (gp s) (next_prof s))
-          (builtin_after cfg o (builtin s) (next_prof s)) (timers_after cfg o p (timers s)) (tracing s)
+  = (result_of (effective_outcome o p (builtin s) (tracing s)),
+     mkSt (argv_after cfg o p (tracing s) (argv s)) (path_after o p (tracing s) (path s)) (gp_after cfg (gp s) (next_prof s))
+          (builtin_after cfg o (builtin s) (next_prof s)) (timers_after cfg o p (timers s)) (tracing_after cfg o p (next_prof s) (tracing s))
           (next_prof s + 1)).
 Proof.
-  unfold main_body, argv_after, path_after, gp_after, timers_after, builtin_after.
+  unfold main_body, argv_after, path_after, gp_after, timers_after, builtin_after, tracing_after.
   destruct s as [a pa g b t tr n]. cbn.
   destruct (fx_builtin cfg); reflexivity.
 Qed.
@@ -164,31 +167,34 @@ Definition wrapped_cell (cfg : Fixes) (r : result) (c0 c : cell) : cell :=
 (* the state after one call of main, in closed form *)
 Lemma main_eq cfg o p s :
   main cfg o p s
-  = (result_of (effective_outcome o p (builtin s)),
-     mkSt (wrapped_cell cfg (result_of (effective_outcome o p (builtin s))) (argv s) (argv_after cfg o p (argv s)))
-          (wrapped_cell cfg (result_of (effective_outcome o p (builtin s))) (path s) (path_after o p (path s)))
+  = (result_of (effective_outcome o p (builtin s) (tracing s)),
+     mkSt (wrapped_cell cfg (result_of (effective_outcome o p (builtin s) (tracing s))) (argv s) (argv_after cfg o p (tracing s) (argv s)))
+          (wrapped_cell cfg (result_of (effective_outcome o p (builtin s) (tracing s))) (path s) (path_after o p (tracing s) (path s)))
           (gp_after cfg (gp s) (next_prof s))
-          (builtin_after cfg o (builtin s) (next_prof s)) (timers_after cfg o p (timers s)) (tracing s)
+          (builtin_after cfg o (builtin s) (next_prof s)) (timers_after cfg o p (timers s)) (tracing_after cfg o p (next_prof s) (tracing s))
           (next_prof s + 1)).
 Proof.
   unfold main, with_restore. rewrite main_body_eq. unfold wrapped_cell, restoring, held.
-  destruct s as [a pa g b t tr n]. cbn [fst snd argv path builtin].
-  destruct (result_of (effective_outcome o p b)); cbn [restoring]; try reflexivity.
+  destruct s as [a pa g b t tr n]. cbn [fst snd argv path builtin tracing].
+  destruct (result_of (effective_outcome o p b tr)); cbn [restoring]; try reflexivity.
   destruct (fx_finally cfg); reflexivity.
 Qed.
 
+(* from here on main is used through [main_eq] only (vm_compute still sees through) *)
+Global Opaque main main_body.
+
 (* ---- cells ----------------------------------------------------------------------------- *)
-Lemma path_after_ref o p c : ref (path_after o p c) = ref c /\ cap (path_after o p c) = cap c.
+Lemma path_after_ref o p tr c : ref (path_after o p tr c) = ref c /\ cap (path_after o p tr c) = cap c.
 Proof.
-  unfold path_after. destruct (o_module o), (o_setup o), (p_touch_path p); cbn; auto.
+  unfold path_after. destruct (o_module o), (o_setup o), (p_touch_path p && body_runs o p tr); cbn; auto.
 Qed.
 
-Lemma argv_after_cap cfg o p c : cap (argv_after cfg o p c) = cap c.
-Proof. unfold argv_after, assign_argv. destruct (fx_argv_inplace cfg), (p_touch_argv p); reflexivity. Qed.
+Lemma argv_after_cap cfg o p tr c : cap (argv_after cfg o p tr c) = cap c.
+Proof. unfold argv_after, assign_argv. destruct (fx_argv_inplace cfg), (p_touch_argv p && body_runs o p tr); reflexivity. Qed.
 
-Lemma argv_after_ref_inplace cfg o p c :
-  fx_argv_inplace cfg = true -> ref (argv_after cfg o p c) = ref c.
-Proof. intros H. unfold argv_after, assign_argv. rewrite H. destruct (p_touch_argv p); reflexivity. Qed.
+Lemma argv_after_ref_inplace cfg o p tr c :
+  fx_argv_inplace cfg = true -> ref (argv_after cfg o p tr c) = ref c.
+Proof. intros H. unfold argv_after, assign_argv. rewrite H. destruct (p_touch_argv p && body_runs o p tr); reflexivity. Qed.
 
 (* the write-back gives the name its old contents back when the decorator holds the
    object the name is (still / again) on *)
@@ -213,7 +219,7 @@ Lemma run_path cfg o p s :
   cur (path s') = cur (path s) /\ ref (path s') = ref (path s) /\ cap (path s') = cap (path s).
 Proof.
   intros Hr H. rewrite main_eq in *. cbn [fst snd path] in *.
-  destruct (path_after_ref o p (path s)) as [R C].
+  destruct (path_after_ref o p (tracing s) (path s)) as [R C].
   apply wrapped_restores; [exact Hr|exact C|]. destruct H; [left; assumption|right; auto].
 Qed.
 
@@ -267,8 +273,22 @@ Proof.
   destruct (0 <? o_interval o) eqn:E; lia.
 Qed.
 
-Lemma run_tracing cfg o p s : tracing (snd (main cfg o p s)) = tracing s.
-Proof. rewrite main_eq. reflexivity. Qed.
+Lemma run_tracing cfg o p s :
+  (fx_autoprof cfg = true \/ registers o p = false) ->
+  tracing (snd (main cfg o p s)) = tracing s.
+Proof.
+  intros H. rewrite main_eq. cbn [snd tracing]. unfold tracing_after.
+  destruct H as [H|H]; rewrite H; [rewrite andb_false_r|]; reflexivity.
+Qed.
+
+(* the tree as it is: a run that registers imports for auto-profiling, started with no profiler
+   enabled, ends with its LineProfiler enabled *)
+Lemma run_tracing_leak cfg o p s :
+  fx_autoprof cfg = false -> registers o p = true -> tracing s = None ->
+  tracing (snd (main cfg o p s)) = Some (Ext (next_prof s)).
+Proof.
+  intros H R T. rewrite main_eq. cbn [snd tracing]. unfold tracing_after. rewrite H, R, T. reflexivity.
+Qed.
 
 (* ---- sequences of runs ------------------------------------------------------------------ *)
 (* along the execution: every run's write-back happens *)
@@ -365,14 +385,25 @@ Proof.
     cbn [no_interval forallb] in H. apply andb_prop in H as [_ H]. exact H.
 Qed.
 
-Lemma runs_tracing cfg rs : forall s, tracing (exec_runs cfg s rs) = tracing s.
+(* no run of the sequence executes auto-profiling registration statements *)
+Definition no_registration (rs : list run) : bool := forallb (fun r => negb (registers (fst r) (snd r))) rs.
+
+Lemma runs_tracing cfg rs : forall s,
+  (fx_autoprof cfg = true \/ no_registration rs = true) ->
+  tracing (exec_runs cfg s rs) = tracing s.
 Proof.
-  induction rs as [|[o p] t IH]; intros s; [reflexivity|]. cbn [exec_runs]. rewrite IH. apply run_tracing.
+  induction rs as [|[o p] t IH]; intros s H; [reflexivity|]. cbn [exec_runs]. rewrite IH.
+  - apply run_tracing. destruct H as [H|H]; [left; exact H|right].
+    cbn [no_registration forallb fst snd] in H. apply andb_prop in H as [H _]. apply negb_true_iff in H. exact H.
+  - destruct H as [H|H]; [left; exact H|right].
+    cbn [no_registration forallb] in H. apply andb_prop in H as [_ H]. exact H.
 Qed.
 
 (* ---- the clauses of C19 -------------------------------------------------------------------- *)
-Theorem tracing_clause cfg s rs : tracing_ok s (exec_runs cfg s rs) = true.
-Proof. unfold tracing_ok. rewrite runs_tracing. apply oprof_eqb_refl. Qed.
+Theorem tracing_clause cfg s rs :
+  (fx_autoprof cfg = true \/ no_registration rs = true) ->
+  tracing_ok s (exec_runs cfg s rs) = true.
+Proof. intros H. unfold tracing_ok. rewrite runs_tracing by exact H. apply oprof_eqb_refl. Qed.
 
 Theorem path_clause cfg s rs :
   (fx_at_call cfg = true \/ ref (path s) = cap (path s)) ->
@@ -413,9 +444,10 @@ Proof. intros H. unfold timers_ok. rewrite runs_timers by exact H. apply Z.eqb_r
 (* ---- the repaired main satisfies all of C19 ------------------------------------------------ *)
 Theorem restores_if_fixed cfg :
   fx_at_call cfg = true -> fx_finally cfg = true -> fx_profile cfg = true -> fx_timer cfg = true ->
+  fx_autoprof cfg = true ->
   C19_statement cfg.
 Proof.
-  intros A F P T s rs U. unfold restored.
+  intros A F P T G s rs U. unfold restored.
   rewrite argv_clause, path_clause, profile_clause, tracing_clause, timers_clause; auto.
 Qed.
 
@@ -423,10 +455,11 @@ Qed.
    sys.argv / sys.path between kernprof's import and the call *)
 Theorem restores_if_fixed_inplace cfg s rs :
   fx_argv_inplace cfg = true -> fx_finally cfg = true -> fx_profile cfg = true -> fx_timer cfg = true ->
+  fx_autoprof cfg = true ->
   ref (argv s) = cap (argv s) -> ref (path s) = cap (path s) -> usable (gp s) = true ->
   restored s (exec_runs cfg s rs) = true.
 Proof.
-  intros A F P T Ha Hp U. unfold restored.
+  intros A F P T G Ha Hp U. unfold restored.
   rewrite argv_clause, path_clause, profile_clause, tracing_clause, timers_clause; auto.
 Qed.
 
@@ -436,9 +469,10 @@ Proof. intros H. rewrite main_eq. cbn [snd gp]. unfold gp_after. rewrite H. dest
 
 Lemma run_veq cfg o p s :
   fx_at_call cfg = true -> fx_finally cfg = true -> fx_profile cfg = true -> fx_timer cfg = true ->
+  (fx_autoprof cfg = true \/ registers o p = false) ->
   veq (snd (main cfg o p s)) s.
 Proof.
-  intros A F P T. unfold veq.
+  intros A F P T G. unfold veq.
   assert (Hr : restoring cfg (fst (main cfg o p s)) = true)
     by (unfold restoring; rewrite F; destruct (fst (main cfg o p s)); reflexivity).
   destruct (run_argv cfg o p s Hr (or_introl A)) as (A1 & _).
@@ -457,30 +491,49 @@ Qed.
 
 (* Interleave kernprof.main runs with ordinary use of the decorator in any way: what can be
    observed at the end is what the ordinary uses alone would have produced. *)
+Definition act_registers (a : act) : bool := match a with ARun o p => registers o p | _ => false end.
+Definition no_registering_act (acts : list act) : bool := forallb (fun a => negb (act_registers a)) acts.
+
 Theorem runs_invisible cfg :
   fx_at_call cfg = true -> fx_finally cfg = true -> fx_profile cfg = true -> fx_timer cfg = true ->
-  forall acts s1 s2, veq s1 s2 -> veq (exec_acts cfg s1 acts) (exec_acts cfg s2 (filter is_user acts)).
+  forall acts s1 s2, (fx_autoprof cfg = true \/ no_registering_act acts = true) ->
+                     veq s1 s2 -> veq (exec_acts cfg s1 acts) (exec_acts cfg s2 (filter is_user acts)).
 Proof.
-  intros A F P T. induction acts as [|a acts IH]; intros s1 s2 H; [exact H|].
+  intros A F P T. induction acts as [|a acts IH]; intros s1 s2 G H; [exact H|].
+  assert (G' : fx_autoprof cfg = true \/ no_registering_act acts = true).
+  { destruct G as [G|G]; [left; exact G|right]. cbn [no_registering_act forallb] in G. apply andb_prop in G as [_ G]. exact G. }
   cbn [filter]. destruct (is_user a) eqn:U.
-  - cbn [exec_acts fold_left]. apply IH. destruct a; [discriminate|..]; cbn [do_act]; apply user_veq; auto.
-  - destruct a as [o p| | |]; try discriminate. cbn [exec_acts fold_left do_act]. apply IH.
-    destruct (run_veq cfg o p s1 A F P T) as (a1 & a2 & a3 & a4 & a5).
+  - cbn [exec_acts fold_left]. apply IH; [exact G'|]. destruct a; [discriminate|..]; cbn [do_act]; apply user_veq; auto.
+  - destruct a as [o p| | |]; try discriminate. cbn [exec_acts fold_left do_act]. apply IH; [exact G'|].
+    assert (Gr : fx_autoprof cfg = true \/ registers o p = false).
+    { destruct G as [G|G]; [left; exact G|right]. cbn [no_registering_act forallb act_registers] in G.
+      apply andb_prop in G as [G _]. apply negb_true_iff in G. exact G. }
+    destruct (run_veq cfg o p s1 A F P T Gr) as (a1 & a2 & a3 & a4 & a5).
     destruct H as (h1 & h2 & h3 & h4 & h5). unfold veq. rewrite a1, a2, a3, a4, a5. auto.
 Qed.
 
 Corollary runs_invisible_current acts s :
+  no_registering_act acts = true ->
   veq (exec_acts current s acts) (exec_acts current s (filter is_user acts)).
-Proof. apply runs_invisible; try reflexivity. unfold veq. auto. Qed.
+Proof. intros G. apply runs_invisible; try reflexivity; [right; exact G|]. unfold veq. auto. Qed.
 
-(* ---- the tree as it is (after the four repairs) satisfies all of C19 --------------------------- *)
-Theorem restores_current : C19_statement current.
-Proof. apply restores_if_fixed; reflexivity. Qed.
-
-(* one call of main, whichever way it ends *)
-Corollary restores_current_run s o p :
-  usable (gp s) = true -> restored s (snd (main current o p s)) = true.
-Proof. intros U. exact (restores_current s [(o, p)] U). Qed.
+(* ---- the tree as it is (after the four repairs): everything but the auto-profiling leak --------- *)
+(* for ALL sequences four clauses hold; the fifth (no profiler left enabled) holds when no run
+   executes auto-profiling registration statements (-l -p with a selection matching an import) *)
+Theorem restores_current_partial s rs :
+  usable (gp s) = true ->
+  argv_ok s (exec_runs current s rs) = true /\ path_ok s (exec_runs current s rs) = true
+  /\ profile_ok s (exec_runs current s rs) = true /\ timers_ok s (exec_runs current s rs) = true
+  /\ (no_registration rs = true -> restored s (exec_runs current s rs) = true).
+Proof.
+  intros U.
+  assert (A : argv_ok s (exec_runs current s rs) = true) by (apply argv_clause; left; reflexivity).
+  assert (P : path_ok s (exec_runs current s rs) = true) by (apply path_clause; left; reflexivity).
+  assert (G : profile_ok s (exec_runs current s rs) = true) by (apply profile_clause; [reflexivity|exact U]).
+  assert (T : timers_ok s (exec_runs current s rs) = true) by (apply timers_clause; left; reflexivity).
+  repeat split; try assumption.
+  intros N. unfold restored. rewrite A, P, G, T, tracing_clause; [reflexivity|right; exact N].
+Qed.
 
 Definition opts_timed : Opts := mkOpts true false false None 1 ["prog.py"] "" "/T".
 
@@ -491,8 +544,8 @@ Lemma argv_needs_repair cfg :
                 /\ argv_ok s (snd (main cfg o p s)) = false
                 /\ cur (argv (snd (main cfg o p s))) = o_new_argv o.
 Proof.
-  destruct cfg as [a b c d e f]. cbn. intros -> ->. exists st0, opts0, returns.
-  destruct c, d, e, f; vm_compute; repeat split; reflexivity.
+  destruct cfg as [a b c d e f g]. cbn. intros -> ->. exists st0, opts0, returns.
+  destruct c, d, e, f, g; vm_compute; repeat split; reflexivity.
 Qed.
 
 Lemma path_needs_finally cfg :
@@ -502,8 +555,8 @@ Lemma path_needs_finally cfg :
                 /\ path_ok s (snd (main cfg o p s)) = false
                 /\ cur (path (snd (main cfg o p s))) = o_script_dir o :: cur (path s).
 Proof.
-  destruct cfg as [a b c d e f]. cbn. intros ->. exists st0, opts0, raises.
-  destruct a, b, d, e, f; vm_compute; repeat split; reflexivity.
+  destruct cfg as [a b c d e f g]. cbn. intros ->. exists st0, opts0, raises.
+  destruct a, b, d, e, f, g; vm_compute; repeat split; reflexivity.
 Qed.
 
 Lemma profile_needs_repair cfg :
@@ -512,8 +565,8 @@ Lemma profile_needs_repair cfg :
                 /\ profile_ok s (snd (main cfg o p s)) = false
                 /\ decorate (gp (snd (main cfg o p s))) (fun _ => None) [] (Fn 0) = Err TypeError.
 Proof.
-  destruct cfg as [a b c d e f]. cbn. intros ->. exists st0, opts0, returns.
-  destruct a, b, c, e, f; vm_compute; repeat split; reflexivity.
+  destruct cfg as [a b c d e f g]. cbn. intros ->. exists st0, opts0, returns.
+  destruct a, b, c, e, f, g; vm_compute; repeat split; reflexivity.
 Qed.
 
 Lemma timer_needs_repair cfg :
@@ -522,9 +575,34 @@ Lemma timer_needs_repair cfg :
                 /\ timers_ok s (snd (main cfg o p s)) = false
                 /\ timers (snd (main cfg o p s)) = timers s + 1.
 Proof.
-  destruct cfg as [a b c d e f]. cbn. intros ->. exists st0, opts_timed, returns.
-  destruct a, b, c, d, f; vm_compute; repeat split; reflexivity.
+  destruct cfg as [a b c d e f g]. cbn. intros ->. exists st0, opts_timed, returns.
+  destruct a, b, c, d, f, g; vm_compute; repeat split; reflexivity.
 Qed.
+
+(* auto-profiling: the registration statements enable the LineProfiler and nothing disables it.
+   One import matched by -p is enough; the program may end any way it likes. *)
+Definition registering : Prog := mkProg Return false false true 1 [].
+Lemma autoprof_needs_balance cfg :
+  fx_autoprof cfg = false ->
+  exists s o p, usable (gp s) = true /\ tracing s = None /\ registers o p = true
+                /\ fst (main cfg o p s) = Returned
+                /\ tracing_ok s (snd (main cfg o p s)) = false
+                /\ tracing (snd (main cfg o p s)) = Some (Ext (next_prof s)).
+Proof.
+  destruct cfg as [a b c d e f g]. cbn. intros ->. exists st0, opts0, registering.
+  destruct a, b, c, d, e, f; vm_compute; repeat split; reflexivity.
+Qed.
+
+Lemma current_refuted : ~ C19_statement current.
+Proof.
+  intros H. specialize (H st0 [(opts0, registering)] eq_refl). vm_compute in H. discriminate.
+Qed.
+
+(* ... and the next in-process run then fails: its own profiler cannot be enabled *)
+Lemma leak_breaks_next_run :
+  fst (main current opts0 returns (snd (main current opts0 registering st0))) = Raised
+  /\ fst (main current opts0 returns st0) = Returned.
+Proof. vm_compute. split; reflexivity. Qed.
 
 (* in particular the tree before the repairs violated C19 *)
 Lemma unrepaired_refuted : ~ C19_statement unrepaired.
@@ -540,13 +618,13 @@ Example nonvacuous :
   usable (gp st0) = true
   (* the present behaviour restores everything on the runs that refuted the unrepaired one *)
   /\ restored st0 (exec_runs current st0 [(opts0, returns); (opts0, raises); (opts_timed, returns);
-                                           (opts_module, mkProg Exc true true true [Fire; Fire; DumpDone])]) = true
+                                           (opts_module, mkProg Exc true true true 0 [Fire; Fire; DumpDone])]) = true
   /\ restored st0 (exec_runs unrepaired st0 [(opts0, returns)]) = false
   /\ fst (main current opts0 raises st0) = Raised
   (* during the run the pieces really are changed (the model is not the identity) *)
-  /\ cur (path (snd (main_body current opts_module (mkProg Return true false true []) st0)))
+  /\ cur (path (snd (main_body current opts_module (mkProg Return true false true 0 []) st0)))
      = ["/T/setupd"; "/T"; "/lib"; "/prog-added"]
-  /\ cur (argv (snd (main_body current opts_module (mkProg Return false true true []) st0))) = ["mod"; "x"; "prog-added"].
+  /\ cur (argv (snd (main_body current opts_module (mkProg Return false true true 0 []) st0))) = ["mod"; "x"; "prog-added"].
 Proof. vm_compute. repeat split; reflexivity. Qed.
 
 (* ---- executable comparison used by the case shards ---------------------------------------------- *)
